@@ -1114,12 +1114,24 @@ def _ct_from_extension(ck, sites, of_names, label="looked-up-by-the-lower-cased-
     ck.add("content-type", label, True)
 
 
+COMPLETENESS_FNS = {}
+
+
+def _init_completeness():
+    COMPLETENESS_FNS.update({DOCX: ("_extract_images_from_context",), PPTX: ("_process_slide_from_context",), XLSX: ("_extract_images_from_zip",),
+                             ODT: ("_extract_images_from_context",), ODS: ("_extract_images",), ODG: ("_extract_images",), ODP: ("_extract_image",),
+                             EPUB: ("_extract_images",)})
+
+
 def image_sites(repo, tier):
+    _init_completeness()
     from contracts import c14_sites as SI
     from contracts.c14_flow import reaching, parent_map
     obls, fns, und = [], [], []
 
     def done(ck):
+        if ck.fname in COMPLETENESS_FNS.get(ck.rel, ()) and not any("/completeness#" in o["id"] and f"::{ck.fname}/" in o["id"] and ck.short in o["id"] for o in obls):
+            SI.completeness(ck)
         obls.extend(ck.obls)
         fns.append(dict(ck.mod.fn_info(ck.real), obligations=len(ck.obls)))
 
